@@ -33,6 +33,25 @@ mut('c01-drop-wildcard', 'C01', ['C01.1'], S,
 mut('c01-class-key-str', 'C01', ['C01.1'], S,
     "            event_key = event_pattern.__name__  # pyright", "            event_key = str(event_pattern)  # pyright",
     'class patterns are filed under str(cls) instead of the class name')
+mut('c01-revert-f17-on', 'C01', ['C01.1'], S,
+    "            if isinstance(declared_event_type, str) and declared_event_type != 'UndefinedEvent':\n                event_key = declared_event_type\n            else:\n                event_key = event_pattern.__name__",
+    "            if False:\n                event_key = declared_event_type\n            else:\n                event_key = event_pattern.__name__",
+    'on(<class>) files under the class name although the class declares its own event_type (F17 reverted in on)')
+mut('c01-declared-type-always', 'C01', ['C01.1'], S,
+    "            if isinstance(declared_event_type, str) and declared_event_type != 'UndefinedEvent':\n                event_key = declared_event_type\n            else:\n                event_key = event_pattern.__name__",
+    "            if isinstance(declared_event_type, str):\n                event_key = declared_event_type\n            else:\n                event_key = event_pattern.__name__",
+    "on(<plain class>) files under the base default 'UndefinedEvent'")
+mut('c01-revert-f18', 'C01', ['C01.9'], S,
+    "        assert self.name.isidentifier() and not self.name.startswith('_'), (", "        assert self.name.isidentifier(), (",
+    'underscore bus names accepted again (F18 reverted)')
+mut('c01-validator-ascii-regex', 'C01', ['C01.9'], M,
+    "    assert str(s).isidentifier() and not str(s).startswith('_'), f'Invalid event name: {s}'",
+    "    import re\n    assert re.fullmatch(r'[A-Za-z][A-Za-z0-9_]*', str(s)), f'Invalid event name: {s}'",
+    'validator narrowed to ASCII identifiers')
+mut('c01-validator-no-dunder', 'C01', ['C01.9'], M,
+    "    assert str(s).isidentifier() and not str(s).startswith('_'), f'Invalid event name: {s}'",
+    "    assert str(s).isidentifier() and not str(s).startswith('_') and not str(s).endswith('_'), f'Invalid event name: {s}'",
+    'validator stricter than the constructor')
 mut('c01-key-by-name', 'C01', ['C01.2'], S,
     "                handler_id = get_handler_id(handler, self)\n                filtered_handlers[handler_id] = handler",
     "                handler_id = get_handler_name(handler)\n                filtered_handlers[handler_id] = handler",
@@ -786,8 +805,8 @@ mut('c18-await-before-try', 'C18', ['C18.1'], S,
     "        self.on(event_type, notify_expect_handler)\n        await asyncio.sleep(0)\n\n        try:\n",
     'cancellation between registration and try leaks the handler')
 mut('c18-key-str-for-classes', 'C18', ['C18.2'], S,
-    "            event_key: str = event_type.__name__ if isinstance(event_type, type) else str(event_type)",
-    "            event_key: str = str(event_type)",
+    "            event_key: str = str(event_type)\n            if isinstance(event_type, type):\n",
+    "            event_key: str = str(event_type)\n            if False:\n",
     'class patterns never unsubscribed')
 mut('c18-no-exclude', 'C18', ['C18.3'], S,
     "            if not future.done() and include(event) and not exclude(event):", "            if not future.done() and include(event):",
@@ -806,6 +825,10 @@ mut('c18-ignore-timeout', 'C18', ['C18.4'], S,
     "                return await asyncio.wait_for(future, timeout=timeout)\n", "                return await asyncio.wait_for(future, timeout=None)\n",
     'timeout ignored')
 
+mut('c18-revert-f17-expect', 'C18', ['C18.2'], S,
+    "                if isinstance(declared_event_type, str) and declared_event_type != 'UndefinedEvent':\n                    event_key = declared_event_type\n                else:\n                    event_key = event_type.__name__",
+    "                event_key = event_type.__name__",
+    'expect(<class declaring event_type>) removes its temporary handler from the class-name key it was never filed under (F17 reverted in expect)')
 # ================================================================================================ C19
 mut('c19-range-retries', 'C19', ['C19.1'], H,
     "    for attempt in range(retries + 1):", "    for attempt in range(retries):",
@@ -938,9 +961,12 @@ neutral('n-retry-wait-commuted', H,
         "                current_wait = wait * (backoff_factor**attempt)", "                current_wait = (backoff_factor**attempt) * wait",
         'commuted product')
 neutral('n-expect-key-ifelse', S,
-        "            event_key: str = event_type.__name__ if isinstance(event_type, type) else str(event_type)  # pyright: ignore[reportUnknownMemberType, reportPartialTypeErrors]\n",
-        "            if isinstance(event_type, type):\n                event_key = event_type.__name__\n            else:\n                event_key = str(event_type)\n",
-        'conditional expression rewritten as if/else')
+        "            event_key: str = str(event_type)\n            if isinstance(event_type, type):\n                declared_event_type = event_type.model_fields['event_type'].default\n                if isinstance(declared_event_type, str) and declared_event_type != 'UndefinedEvent':\n                    event_key = declared_event_type\n                else:\n                    event_key = event_type.__name__  # pyright: ignore[reportUnknownMemberType]\n",
+        "            if not isinstance(event_type, type):\n                event_key = str(event_type)\n            else:\n                declared = event_type.model_fields['event_type'].default\n                event_key = declared if isinstance(declared, str) and declared != 'UndefinedEvent' else event_type.__name__\n",
+        'key derivation in expect restructured (inverted test, conditional expression)')
+neutral('n-bus-name-stricter', S,
+        "        assert self.name.isidentifier() and not self.name.startswith('_'), (", "        assert not self.name.startswith('_') and self.name.isidentifier() and len(self.name) < 200, (",
+        'constructor test reordered and stricter than the validator')
 neutral('n-children-listcomp', M,
         "        children: list[BaseEvent[Any]] = []\n        for event_result in self.event_results.values():\n            children.extend(event_result.event_children)\n        return children",
         "        return [child for event_result in self.event_results.values() for child in event_result.event_children]",
@@ -1140,3 +1166,43 @@ mut('c12-cache-before-explicit-type', 'C12', ['C12.5'], M,
 mut('c17-bytes-base64-one-sided', 'C17', ['C17.4'], M,
     "    model_config = ConfigDict(\n        extra='allow',", "    model_config = ConfigDict(\n        ser_json_bytes='base64',\n        extra='allow',",
     'bytes payloads are written base64 but read back as the base64 text')
+
+# ================================================================================================ round-3 additions
+mut('c05-inline-while-drain', 'C05', ['C05.4'], M,
+    "                                if bus.event_queue.qsize() > 0:\n", "                                while bus.event_queue.qsize() > 0:\n",
+    'the completion break leaves only the inner loop: other buses keep being drained after the awaited event completed')
+mut('c05-no-completion-break', 'C05', ['C05.4'], M,
+    "                                    # Check if the event we're waiting for is now complete\n                                    if self.event_completed_signal.is_set():\n                                        break\n",
+    "",
+    'no completion check between two inline process_event calls')
+mut('c07-suffix-from-uuid-prefix', 'C07', ['C07.7'], S,
+    "            unique_suffix = uuid7str()[-8:]", "            unique_suffix = self.id[:8]",
+    'conflict suffix from the timestamp head of a UUIDv7')
+mut('c07-no-rename-on-conflict', 'C07', ['C07.7'], S,
+    "            self.name = f'{original_name}_{unique_suffix}'\n", "            pass\n",
+    'conflicting name kept')
+mut('c07-forward-by-func-identity', 'C07', ['C07.2'], S,
+    "            inspect.ismethod(handler) and isinstance(handler.__self__, EventBus) and handler.__name__ == 'dispatch'\n",
+    "            inspect.ismethod(handler) and handler.__func__ is EventBus.dispatch\n",
+    'a subclass overriding dispatch is no longer recognised as a forward (recursion guard applies to it)')
+mut('c01-forward-by-func-identity', 'C01', ['C01.10'], S,
+    "            inspect.ismethod(handler) and isinstance(handler.__self__, EventBus) and handler.__name__ == 'dispatch'\n",
+    "            inspect.ismethod(handler) and handler.__func__ is EventBus.dispatch\n",
+    'echo of c07-forward-by-func-identity')
+mut('c07-path-substring', 'C07', ['C07.2'], S,
+    "            if target_bus.name in event.event_path:", "            if target_bus.name in '≫'.join(event.event_path):",
+    'list membership replaced by a substring test')
+mut('c09-event-id-plain-str', 'C09', ['C09.10'], M,
+    "    event_id: UUIDStr = Field(default_factory=uuid7str, max_length=36)", "    event_id: str = Field(default_factory=uuid7str, max_length=36)",
+    'event_id no longer canonicalised like event_parent_id')
+mut('c19-sleep-under-timeout', 'C19', ['C19.1'], H,
+    "            async with asyncio.timeout(timeout):\n                return await func(*args, **kwargs)",
+    "            async with asyncio.timeout(timeout):\n                if attempt > 0:\n                    await asyncio.sleep(0.01)\n                return await func(*args, **kwargs)",
+    'something else awaits under the per-attempt timeout')
+mut('c10-taskgroup', 'C10', ['C10.7'], S,
+    "                    await task\n                except Exception:\n                    # Error already logged and recorded in execute_handler\n                    pass",
+    "                    await task\n                except Exception:\n                    for other_task, _ in handler_tasks.values():\n                        other_task.cancel()",
+    'a failing handler cancels its siblings')
+neutral('n-retry-terminal-first', H,
+        "            if attempt < retries:", "            if not (attempt >= retries):",
+        'comparison spelled through its negation')
